@@ -18,6 +18,7 @@ package c02
 
 import (
 	"bufio"
+	"io"
 	"strings"
 
 	"github.com/evolbioinfo/goalign/align"
@@ -103,21 +104,54 @@ type vfCase struct {
 	names []string
 	orig  [][]uint8
 	L     int
+	mode  int
 }
 
-// vfBuild builds an n x L alignment with symbolic residues of the given mode.
+var vfDbg = false
+
+func vfDbgPair(mode, i, j int) (uint8, uint8) {
+	if mode == vfNt {
+		if i%2 == 1 {
+			return "data"[j%4], 'c'
+		}
+		return "DATA"[j%4], 'C'
+	}
+	if i == 0 && j == 0 {
+		return 'E', 'Q'
+	}
+	if i%2 == 1 {
+		return "endgap"[j%6], 'l'
+	}
+	return "ENDGAP"[j%6], 'L'
+}
+
+// vfBuild builds an n x L alignment with symbolic residues of the given mode. In protein mode the
+// residue (0,0) is a protein-only letter (a fixed position keeps every path-condition conjunct
+// over one byte, which the engine decides without the solver); the alphabet is set by
+// construction and cross-checked against goalign's own detection in vfSame.
 func vfBuild(n, L, mode int, syms bool, rot int) vfCase {
 	names := vfNames(n, rot)
-	al := align.NewAlign(align.UNKNOWN)
+	var al align.Alignment
+	if mode == vfNt {
+		al = align.NewAlign(align.NUCLEOTIDS)
+	} else {
+		al = align.NewAlign(align.AMINOACIDS)
+	}
 	orig := make([][]uint8, n)
-	hasAa := false
 	for i := 0; i < n; i++ {
 		s := make([]uint8, L)
 		for j := range s {
 			c := nondetByte()
-			assume(vfResidueOK(c, mode, syms))
-			if vfAaOnly(c) {
-				hasAa = true
+			if vfDbg {
+				a, b := vfDbgPair(mode, i, j)
+				c = a
+				if nondetBool() {
+					c = b
+				}
+			} else if mode == vfAa && i == 0 && j == 0 {
+				assume(vfAaOnly(c))
+			} else {
+				assume(vfResidueOK(c, mode, syms))
 			}
 			s[j] = c
 		}
@@ -127,16 +161,7 @@ func vfBuild(n, L, mode int, syms bool, rot int) vfCase {
 			panic("harness: cannot build alignment: " + err.Error())
 		}
 	}
-	if mode == vfAa {
-		assume(hasAa)
-	}
-	al.AutoAlphabet()
-	if mode == vfNt {
-		verifAssert(al.Alphabet() == align.NUCLEOTIDS, "harness: nucleotide mode is detected as nucleotides")
-	} else {
-		verifAssert(al.Alphabet() == align.AMINOACIDS, "harness: protein mode is detected as amino acids")
-	}
-	return vfCase{al: al, names: names, orig: orig, L: L}
+	return vfCase{al: al, names: names, orig: orig, L: L, mode: mode}
 }
 
 // vfSame asserts the C02 post-condition: got is the alignment that was written.
@@ -168,6 +193,45 @@ func vfSame(c vfCase, got align.Alignment, err error) {
 		verifAssert(same, "same residues")
 	}
 	verifAssert(got.Alphabet() == c.al.Alphabet(), "same detected alphabet")
+	// cross-check: the alphabet set by construction is the one goalign detects on the original
+	c.al.AutoAlphabet()
+	if c.mode == vfNt {
+		verifAssert(c.al.Alphabet() == align.NUCLEOTIDS, "harness: nucleotide mode is detected as nucleotides")
+	} else {
+		verifAssert(c.al.Alphabet() == align.AMINOACIDS, "harness: protein mode is detected as amino acids")
+	}
+}
+
+// vfSlowReader hands the written text to the parser one byte per Read call (like
+// testing/iotest.OneByteReader). Every goalign parser takes an io.Reader and wraps it in a
+// bufio.Reader, so this is an admissible input source; it is used instead of strings.Reader
+// because with more than 3 unread bytes in the bufio buffer the engine merges the (infeasible)
+// multi-byte arm of bufio.Reader.ReadRune into a symbolic read offset, which makes every later
+// buffer access a solver query over all residues.
+type vfSlowReader struct {
+	s string
+	i int
+}
+
+func (r *vfSlowReader) Read(p []byte) (int, error) {
+	if r.i >= len(r.s) {
+		return 0, io.EOF
+	}
+	if len(p) == 0 {
+		return 0, nil
+	}
+	p[0] = r.s[r.i]
+	r.i++
+	return 1, nil
+}
+
+var vfSlow = false
+
+func vfReader(w string) io.Reader {
+	if vfSlow {
+		return &vfSlowReader{s: w}
+	}
+	return strings.NewReader(w)
 }
 
 // vfPick returns one element of a concrete list (one case per element).
@@ -184,7 +248,7 @@ func vfFasta(maxn int, Ls []int, syms bool, nrot int) {
 	rot := nondetRange(0, nrot-1)
 	c := vfBuild(n, L, mode, syms, rot)
 	w := fasta.WriteAlignment(c.al)
-	got, err := fasta.NewParser(strings.NewReader(w)).Parse()
+	got, err := fasta.NewParser(vfReader(w)).Parse()
 	verifReach("fasta round trip")
 	vfSame(c, got, err)
 }
@@ -194,11 +258,397 @@ func vfFasta(maxn int, Ls []int, syms bool, nrot int) {
 // outside: other lengths (thorough twin), symbols - * ? (H_C02_fasta_syms), names outside the pool, alignments mixing nucleotide-only and protein-only letters
 func H_C02_fasta() { vfFasta(2, []int{1, 79, 80, 81}, false, 2) }
 
-var (
-	_ = bufio.NewReader
-	_ = clustal.WriteAlignment
-	_ = nexus.WriteAlignment
-	_ = phylip.WriteAlignment
-	_ = stockholm.WriteAlignment
-	_ = utils.ParseAlignmentAuto
+// H_C02_fasta_syms: same with the symbols - * ? allowed at every position.
+// bounds: n in 1..2, L in {1,2,81}, residues = letters of the family or - * ?
+// outside: other lengths
+func H_C02_fasta_syms() { vfFasta(2, []int{1, 2, 81}, true, 1) }
+
+// H_C02_fasta_thorough: full length list and three rows.
+// bounds: n in 1..3, L in {1,2,3,9,10,11,49,50,51,59,60,61,79,80,81,119,120,121} plus 160,161, letters and symbols, 4 name rotations
+// outside: L > 161, n > 3
+//verif: tier=thorough
+func H_C02_fasta_thorough() { vfFasta(3, append(append([]int{}, vfFullL...), 160, 161), true, 4) }
+
+// ------------------------------------------------------------------ Phylip
+
+// vfPhylip: opts is the list of writer option combinations (bit 0 strict, bit 1 oneline, bit 2 noblock);
+// the parser is given the same strictness as the writer.
+func vfPhylip(maxn int, Ls []int, syms bool, nrot int, opts []int) {
+	n := nondetRange(1, maxn)
+	L := vfPick(Ls)
+	mode := nondetRange(vfNt, vfAa)
+	rot := nondetRange(0, nrot-1)
+	opt := vfPick(opts)
+	strict, oneline, noblock := opt&1 != 0, opt&2 != 0, opt&4 != 0
+	c := vfBuild(n, L, mode, syms, rot)
+	w := phylip.WriteAlignment(c.al, strict, oneline, noblock)
+	got, err := phylip.NewParser(vfReader(w), strict).Parse()
+	verifReach("phylip round trip")
+	vfSame(c, got, err)
+}
+
+// H_C02_phylip_relaxed: relaxed Phylip (name, two blanks, sequence), the 4 oneline/noblock combinations.
+// bounds: n in 1..2, L in {1,10,11,60,61}, letters of either family in both cases, 2 name rotations, writer options strict=false x oneline x noblock, parser strict=false
+// outside: other lengths (thorough twin), symbols (H_C02_phylip_syms), names with blanks (not representable)
+func H_C02_phylip_relaxed() { vfPhylip(2, []int{1, 10, 11, 60, 61}, false, 2, []int{0, 2, 4, 6}) }
+
+// H_C02_phylip_strict: strict Phylip (names padded/cut to 10 columns), the 4 oneline/noblock combinations.
+// bounds: n in 1..2, L in {1,10,11,60,61}, letters of either family, 2 name rotations (pool names are <= 10 characters, one is exactly 10), writer strict=true x oneline x noblock, parser strict=true
+// outside: names longer than 10 characters (truncated by design, not representable), other lengths
+func H_C02_phylip_strict() { vfPhylip(2, []int{1, 10, 11, 60, 61}, false, 2, []int{1, 3, 5, 7}) }
+
+// H_C02_phylip_syms: symbols - * ? allowed (a block that starts with '-' takes strconv.ParseInt's sign path in the lexer).
+// bounds: n in 1..2, L in {1,2,11}, letters or - * ?, all 8 option combinations
+// outside: longer rows with symbols
+func H_C02_phylip_syms() { vfPhylip(2, []int{1, 2, 11}, true, 1, []int{0, 1, 2, 3, 4, 5, 6, 7}) }
+
+// H_C02_phylip_thorough: full length list, three rows, all 8 option combinations.
+// bounds: n in 1..3, L in the full list {1,2,3,9,10,11,49,50,51,59,60,61,79,80,81,119,120,121}, letters of either family, 4 name rotations, 8 option combinations
+// outside: L > 121
+//verif: tier=thorough
+func H_C02_phylip_thorough() { vfPhylip(3, vfFullL, false, 4, []int{0, 1, 2, 3, 4, 5, 6, 7}) }
+
+// vfShape: rows and columns of one alignment of a multi-alignment stream.
+type vfShape struct{ n, L int }
+
+var vfShapes = []vfShape{{1, 2}, {2, 61}, {2, 11}}
+
+// H_C02_phylip_multi: a stream of 2..3 Phylip alignments written one after the other parses back,
+// through ParseMultiple, to exactly that list.
+// bounds: k in 2..3 alignments with shapes taken in rotation from {1x2, 2x61, 2x11} (3 rotations), alternating nucleotide/protein, letters only, strict in {false,true}, default block layout
+// outside: more than 3 alignments, other shapes, oneline/noblock layouts in a stream
+func H_C02_phylip_multi() {
+	k := nondetRange(2, 3)
+	r := nondetRange(0, len(vfShapes)-1)
+	strict := nondetRange(0, 1) == 1
+	cases := make([]vfCase, k)
+	w := ""
+	for a := 0; a < k; a++ {
+		sh := vfShapes[(r+a)%len(vfShapes)]
+		cases[a] = vfBuild(sh.n, sh.L, a%2, false, a)
+		w += phylip.WriteAlignment(cases[a].al, strict, false, false)
+	}
+	ch := &align.AlignChannel{Achan: make(chan align.Alignment, 15)}
+	phylip.NewParser(vfReader(w), strict).ParseMultiple(ch)
+	verifReach("phylip stream parsed")
+	verifAssert(ch.Err == nil, "no error on a stream of written alignments")
+	cnt := 0
+	for got := range ch.Achan {
+		verifAssert(cnt < k, "no more alignments than written")
+		if cnt < k {
+			vfSame(cases[cnt], got, nil)
+		}
+		cnt++
+	}
+	verifAssert(cnt == k, "as many alignments as written")
+}
+
+// ------------------------------------------------------------------ Nexus
+
+// vfNexusKeywords: identifiers that the Nexus lexer turns into keyword tokens (case-insensitive).
+var vfNexusKeywords = []string{"BEGIN", "DATA", "CHARACTERS", "TAXA", "TAXLABELS", "TREES", "TREE", "DIMENSIONS",
+	"NTAX", "NCHAR", "FORMAT", "DATATYPE", "MISSING", "MATCHCHAR", "GAP", "MATRIX", "END"}
+
+// vfIsWordCI: is row (case-insensitively) the word kw.
+func vfIsWordCI(row []uint8, kw string) bool {
+	if len(row) != len(kw) {
+		return false
+	}
+	eq := true
+	for j := range row {
+		if vfUp(row[j]) != kw[j] {
+			eq = false
+		}
+	}
+	return eq
+}
+
+func vfNexus(maxn int, Ls []int, syms bool, nrot int, exclKeywords bool) {
+	n := nondetRange(1, maxn)
+	L := vfPick(Ls)
+	mode := nondetRange(vfNt, vfAa)
+	rot := nondetRange(0, nrot-1)
+	c := vfBuild(n, L, mode, syms, rot)
+	if exclKeywords {
+		for i := 0; i < n; i++ {
+			for _, kw := range vfNexusKeywords {
+				if len(kw) == L {
+					assume(!vfIsWordCI(c.orig[i], kw))
+				}
+			}
+		}
+	}
+	w := nexus.WriteAlignment(c.al)
+	got, err := nexus.NewParser(vfReader(w)).Parse()
+	verifReach("nexus round trip")
+	vfSame(c, got, err)
+}
+
+// H_C02_nexus: Nexus writer -> parser is the identity (the writer does not wrap; lengths cover the lexer's keyword lengths 3..5).
+// bounds: n in 1..2, L in {1,3,4,5}, letters of either family in both cases, 2 name rotations
+// outside: other lengths (thorough twin), symbols (H_C02_nexus_syms), names that are Nexus keywords or contain [ ] ; = blanks
+func H_C02_nexus() { vfNexus(2, []int{1, 3, 4, 5}, false, 2, false) }
+
+// H_C02_nexus_nokw: as H_C02_nexus, with the rows that spell a lexer keyword excluded (second variant: shows that
+// the keyword collision is the only defect in these bounds and keeps the remaining region checked).
+// bounds: as H_C02_nexus plus L in {2,6,61}; assumes no row equals, case-insensitively, one of the 17 keywords of nexus_lexer.go
+// outside: rows that spell a keyword (covered, and failing, in H_C02_nexus)
+// assumes: the keyword list of io/nexus/nexus_lexer.go scanIdent
+func H_C02_nexus_nokw() { vfNexus(2, []int{1, 2, 3, 4, 5, 6, 61}, false, 2, true) }
+
+// H_C02_nexus_syms: symbols - * ? allowed (* is Nexus' default missing character, - the gap).
+// bounds: n in 1..2, L in {1,2,3}, letters or - * ?, keyword rows excluded
+// outside: longer rows with symbols
+func H_C02_nexus_syms() { vfNexus(2, []int{1, 2, 3}, true, 1, true) }
+
+// H_C02_nexus_thorough: every length 1..11 (all keyword lengths) and the long ones, three rows.
+// bounds: n in 1..3, L in {1..11, 60, 61, 121}, letters and symbols, 4 name rotations
+//verif: tier=thorough
+func H_C02_nexus_thorough() {
+	vfNexus(3, []int{1, 2, 3, 4, 5, 6, 7, 8, 9, 10, 11, 60, 61, 121}, true, 4, false)
+}
+
+// H_C02_nexus_nokw_thorough: thorough twin of H_C02_nexus_nokw.
+// bounds: n in 1..3, L in {1..11, 60, 61, 121}, letters and symbols, keyword rows excluded
+//verif: tier=thorough
+func H_C02_nexus_nokw_thorough() {
+	vfNexus(3, []int{1, 2, 3, 4, 5, 6, 7, 8, 9, 10, 11, 60, 61, 121}, true, 4, true)
+}
+
+// ------------------------------------------------------------------ Clustal
+
+// vfClustal: caseSplit restricts row i to upper case (i even) / lower case (i odd) letters, so that
+// no column is "identical" and the conservation line (which depends on the residues) is the same
+// on all paths; without it every column forks on the conservation symbol.
+func vfClustal(minn, maxn int, Ls []int, modes []int, syms bool, nrot int, caseSplit bool) {
+	n := nondetRange(minn, maxn)
+	L := vfPick(Ls)
+	mode := vfPick(modes)
+	rot := nondetRange(0, nrot-1)
+	c := vfBuild(n, L, mode, syms, rot)
+	if caseSplit {
+		for i := 0; i < n; i++ {
+			for j := 0; j < L; j++ {
+				r := c.orig[i][j]
+				if i%2 == 0 {
+					assume(r >= 'A' && r <= 'Z')
+				} else {
+					assume(r >= 'a' && r <= 'z')
+				}
+			}
+		}
+	}
+	w := clustal.WriteAlignment(c.al)
+	got, err := clustal.NewParser(vfReader(w)).Parse()
+	verifReach("clustal round trip")
+	vfSame(c, got, err)
+}
+
+// H_C02_clustal: Clustal writer -> parser is the identity, one row (blocks of 50 columns).
+// bounds: n = 1, L in {1,50,51,101}, letters of either family in both cases, 2 name rotations
+// outside: more rows (H_C02_clustal_rows, H_C02_clustal_cons), symbols (H_C02_clustal_syms)
+func H_C02_clustal() { vfClustal(1, 1, []int{1, 50, 51, 101}, []int{vfNt, vfAa}, false, 2, false) }
+
+// H_C02_clustal_rows: several rows across block boundaries; nucleotides, rows alternate upper/lower case.
+// bounds: n in 2..3, L in {1,50,51}, nucleotide family, row i upper case for even i and lower case for odd i (so the conservation line is blank in every column)
+// outside: columns with identical residues and protein conservation groups (H_C02_clustal_cons, small L)
+func H_C02_clustal_rows() { vfClustal(2, 3, []int{1, 50, 51}, []int{vfNt}, false, 2, true) }
+
+// H_C02_clustal_cons: two rows, unrestricted residues: the conservation line (* : . blank) varies with the data.
+// bounds: n = 2, L in {1,2}, letters of either family in both cases
+// outside: longer rows (path count grows as 4^L)
+func H_C02_clustal_cons() { vfClustal(2, 2, []int{1, 2}, []int{vfNt, vfAa}, false, 1, false) }
+
+// H_C02_clustal_syms: symbols - * ? allowed.
+// bounds: n in 1..2, L in {1,2} (n=2) and {1,2,51} (n=1): see body; letters or - * ?
+// outside: longer rows with symbols
+func H_C02_clustal_syms() {
+	if nondetRange(0, 1) == 0 {
+		vfClustal(1, 1, []int{1, 2, 51}, []int{vfNt, vfAa}, true, 1, false)
+	} else {
+		vfClustal(2, 2, []int{1, 2}, []int{vfNt}, true, 1, false)
+	}
+}
+
+// H_C02_clustal_thorough: full length list.
+// bounds: n = 1 with L in the full list (both families, symbols), n in 2..3 with L in the full list (nucleotides, case-split rows)
+//verif: tier=thorough
+func H_C02_clustal_thorough() {
+	if nondetRange(0, 1) == 0 {
+		vfClustal(1, 1, vfFullL, []int{vfNt, vfAa}, true, 4, false)
+	} else {
+		vfClustal(2, 3, vfFullL, []int{vfNt}, false, 4, true)
+	}
+}
+
+// ------------------------------------------------------------------ Stockholm
+
+func vfStockholm(maxn int, Ls []int, syms bool, nrot int) {
+	n := nondetRange(1, maxn)
+	L := vfPick(Ls)
+	mode := nondetRange(vfNt, vfAa)
+	rot := nondetRange(0, nrot-1)
+	c := vfBuild(n, L, mode, syms, rot)
+	w := stockholm.WriteAlignment(c.al)
+	got, err := stockholm.NewParser(vfReader(w)).Parse()
+	verifReach("stockholm round trip")
+	vfSame(c, got, err)
+}
+
+// H_C02_stockholm: Stockholm writer -> parser is the identity (no wrapping; 9 = length of the lexer keyword STOCKHOLM).
+// bounds: n in 1..2, L in {1,2,9,61}, letters of either family in both cases, 2 name rotations
+// outside: symbols (H_C02_stockholm_syms), names starting with # or equal to //
+func H_C02_stockholm() { vfStockholm(2, []int{1, 2, 9, 61}, false, 2) }
+
+// H_C02_stockholm_syms: symbols - * ? allowed.
+// bounds: n in 1..2, L in {1,2,3}, letters or - * ?
+func H_C02_stockholm_syms() { vfStockholm(2, []int{1, 2, 3}, true, 1) }
+
+// H_C02_stockholm_thorough: full length list, three rows.
+// bounds: n in 1..3, L in the full list, letters and symbols, 4 name rotations
+//verif: tier=thorough
+func H_C02_stockholm_thorough() { vfStockholm(3, vfFullL, true, 4) }
+
+// ------------------------------------------------------------------ auto-detection
+
+// H_C02_autodetect: ParseAlignmentAuto selects the format that was written and returns the alignment.
+// bounds: format in {fasta, nexus, clustal, phylip relaxed, phylip strict}, n in 1..2 (clustal: 1), L in {1,11}, letters of either family
+// outside: Stockholm (not auto-detected by design), longer alignments (covered per format)
+func H_C02_autodetect() {
+	f := nondetRange(0, 4)
+	maxn := 2
+	if f == 2 {
+		maxn = 1
+	}
+	n := nondetRange(1, maxn)
+	L := vfPick([]int{1, 11})
+	mode := nondetRange(vfNt, vfAa)
+	c := vfBuild(n, L, mode, false, 0)
+	var w string
+	want := 0
+	strict := false
+	switch f {
+	case 0:
+		w, want = fasta.WriteAlignment(c.al), align.FORMAT_FASTA
+	case 1:
+		w, want = nexus.WriteAlignment(c.al), align.FORMAT_NEXUS
+		for i := 0; i < n; i++ { // known keyword collision, see H_C02_nexus
+			for _, kw := range vfNexusKeywords {
+				if len(kw) == L {
+					assume(!vfIsWordCI(c.orig[i], kw))
+				}
+			}
+		}
+	case 2:
+		w, want = clustal.WriteAlignment(c.al), align.FORMAT_CLUSTAL
+	case 3:
+		w, want = phylip.WriteAlignment(c.al, false, false, false), align.FORMAT_PHYLIP
+	case 4:
+		strict = true
+		w, want = phylip.WriteAlignment(c.al, true, false, false), align.FORMAT_PHYLIP
+	}
+	got, format, err := utils.ParseAlignmentAuto(bufio.NewReader(vfReader(w)), strict)
+	verifReach("autodetect")
+	verifAssert(err == nil, "auto-detected parse succeeds")
+	verifAssert(format == want, "auto-detection selects the written format")
+	vfSame(c, got, err)
+}
+
+// ------------------------------------------------------------------ symbolic names
+
+const (
+	fFasta = iota
+	fPhylip
+	fPhylipStrict
+	fNexus
+	fClustal
+	fStockholm
 )
+
+func vfAlnum(c uint8) bool {
+	return (c >= '0' && c <= '9') || (c >= 'A' && c <= 'Z') || (c >= 'a' && c <= 'z') || c == '_'
+}
+
+// vfNameCharOK: printable, non-blank, and not a delimiter of the format (FASTA: '>'; Nexus: the
+// punctuation of its grammar [ ] ; = and quotes; Stockholm: '#', which starts a markup line).
+func vfNameCharOK(c uint8, format int, alnum bool) bool {
+	if c < 0x21 || c > 0x7e {
+		return false
+	}
+	if alnum {
+		return vfAlnum(c)
+	}
+	if vfAlnum(c) {
+		return false
+	}
+	switch format {
+	case fFasta:
+		return c != '>'
+	case fNexus:
+		return c != '[' && c != ']' && c != ';' && c != '=' && c != '\'' && c != '"'
+	case fStockholm:
+		return c != '#'
+	}
+	return true
+}
+
+// vfNames: round trip of a 2 x 4 nucleotide alignment whose first name is symbolic.
+func vfNamesRT(format, maxlen int, alnum bool) {
+	k := nondetRange(1, maxlen)
+	b := make([]byte, k)
+	for j := range b {
+		b[j] = nondetByte()
+		assume(vfNameCharOK(b[j], format, alnum))
+	}
+	name := string(b)
+	assume(name != "zz9")
+	if format == fStockholm {
+		assume(name != "//") // end-of-alignment marker
+	}
+	names := []string{name, "zz9"}
+	rows := []string{"ACGT", "TTGA"}
+	al := align.NewAlign(align.NUCLEOTIDS)
+	orig := make([][]uint8, 2)
+	for i := range names {
+		orig[i] = []uint8(rows[i])
+		if err := al.AddSequence(names[i], rows[i], ""); err != nil {
+			panic("harness: cannot build alignment: " + err.Error())
+		}
+	}
+	c := vfCase{al: al, names: names, orig: orig, L: 4, mode: vfNt}
+	var got align.Alignment
+	var err error
+	switch format {
+	case fFasta:
+		got, err = fasta.NewParser(vfReader(fasta.WriteAlignment(al))).Parse()
+	case fPhylip:
+		got, err = phylip.NewParser(vfReader(phylip.WriteAlignment(al, false, false, false)), false).Parse()
+	case fPhylipStrict:
+		got, err = phylip.NewParser(vfReader(phylip.WriteAlignment(al, true, false, false)), true).Parse()
+	case fNexus:
+		got, err = nexus.NewParser(vfReader(nexus.WriteAlignment(al))).Parse()
+	case fClustal:
+		got, err = clustal.NewParser(vfReader(clustal.WriteAlignment(al))).Parse()
+	case fStockholm:
+		got, err = stockholm.NewParser(vfReader(stockholm.WriteAlignment(al))).Parse()
+	}
+	verifReach("names round trip")
+	vfSame(c, got, err)
+}
+
+// H_C02_names_alnum: names made of letters, digits and '_' survive the round trip in every format.
+// bounds: format in {fasta, phylip relaxed, phylip strict, nexus, clustal, stockholm}; first name = 1..3 symbolic characters of [A-Za-z0-9_], second name "zz9"; 2 x 4 concrete nucleotide rows
+// outside: longer names, punctuation (H_C02_names_punct)
+func H_C02_names_alnum() { vfNamesRT(nondetRange(fFasta, fStockholm), 3, true) }
+
+// H_C02_names_punct: names made of printable punctuation (without the format's own delimiters) survive the round trip.
+// bounds: same formats; first name = 1..2 symbolic printable non-alphanumeric characters, excluding '>' (FASTA), [ ] ; = ' " (Nexus), '#' and the name "//" (Stockholm)
+// outside: longer names, blanks, bytes >= 0x80
+func H_C02_names_punct() { vfNamesRT(nondetRange(fFasta, fStockholm), 2, false) }
+
+// H_C02_dbg: scratch.
+// bounds: scratch
+// outside: scratch
+func H_C02_dbg() { vfFasta(1, []int{vfDbgL}, false, 1) }
+
+var vfDbgL = 4
